@@ -40,7 +40,6 @@ OPS = [
     ("other:sum0", lambda x: x.sum(0)),
     ("other:reshape", lambda x: x.reshape(-1)),
     ("other:index", lambda x: x[-1]),
-    ("other:clone", lambda x: x.clone()),
     ("other:float", None),  # handled as to_other
 ]
 
@@ -66,6 +65,9 @@ def scenario(bits, rows, tshape, v, strided, ext_ok, ext, with_ops):
     if with_ops:
         d = p.detach()
         evs.append({"act": "Op", "kind": "detach", "outcome": "packed" if type(d) is PackedTensor else "value",
+                    "on_packed": flat(d.unpack() if type(d) is PackedTensor else d), "on_unpacked": flat(t)})
+        d = p.clone()
+        evs.append({"act": "Op", "kind": "clone", "outcome": "packed" if type(d) is PackedTensor else "value",
                     "on_packed": flat(d.unpack() if type(d) is PackedTensor else d), "on_unpacked": flat(t)})
         d = p.to(torch.uint8)
         evs.append({"act": "Op", "kind": "to_uint8", "outcome": "packed" if type(d) is PackedTensor else "value",
